@@ -417,27 +417,27 @@ def _gen_gomod(repo, dest_mod):
     extra = "\nrequire github.com/lavanet/lava/v5 v5.0.0\n\nreplace github.com/lavanet/lava/v5 => %s\n" % repo
     extra += "\nrequire pgregory.net/rapid v1.3.0\n"
     new = src + extra
-    old = None
-    if os.path.exists(dest_mod):
-        with open(dest_mod) as f:
-            old = f.read()
-    if old != new:
-        with open(dest_mod, "w") as f:
-            f.write(new)
-    dest_sum = dest_mod[:-4] + ".sum"
     with open(os.path.join(repo, "go.sum")) as f:
-        s = f.read()
+        sm = f.read()
     extra_sum = os.path.join(HARNESS, "extra.sum")
     if os.path.exists(extra_sum):
         with open(extra_sum) as f:
-            s += f.read()
-    olds = None
-    if os.path.exists(dest_sum):
-        with open(dest_sum) as f:
-            olds = f.read()
-    if olds is None or not set(s.splitlines()) <= set(olds.splitlines()):
-        with open(dest_sum, "w") as f:
-            f.write(s)
+            sm += f.read()
+    # the go command may reformat go.mod / extend go.sum; regenerate only when the *inputs* changed
+    stamp = hashlib.sha256((new + "\0" + sm).encode()).hexdigest()
+    stamp_file = dest_mod + ".stamp"
+    dest_sum = dest_mod[:-4] + ".sum"
+    old = None
+    if os.path.exists(stamp_file) and os.path.exists(dest_mod) and os.path.exists(dest_sum):
+        with open(stamp_file) as f:
+            old = f.read().strip()
+    if old == stamp:
+        return
+    for path, content in ((dest_mod, new), (dest_sum, sm), (stamp_file, stamp)):
+        tmp = "%s.tmp%d" % (path, os.getpid())
+        with open(tmp, "w") as f:
+            f.write(content)
+        os.replace(tmp, path)
 
 
 def go_build(cmd_name, tags="verif", race=False):
